@@ -260,7 +260,43 @@ def detect(only):
             sh("git -C /repo checkout -- .")
         json.dump(res, open(path, "w"), indent=1)
 
+def redetect(only):
+    """Sensitivity regression: every seeded change once more against the check that caught it
+    first (all listed checks if none did). Results in notes/final/redetect.json."""
+    path = "/verif/notes/final/redetect.json"
+    res = json.load(open(path)) if os.path.exists(path) else {}
+    d1 = json.load(open("/verif/notes/seeded_detect.json")); d2 = json.load(open("/verif/notes/seeded2_detect.json"))
+    if sh("git -C /repo diff --quiet")[0] != 0:
+        print("/repo dirty"); sys.exit(2)
+    items = [("%s_%d" % (pid, k), checks) for (pid, k, _d, _dest, _cmd, checks) in T] + [(key, checks) for (key, _w, _k, _dm, _cmd, checks) in T2 + T3 + T4 + T5 + T6]
+    for key, checks in items:
+        if (only and key not in only) or key in res:
+            continue
+        prev = (d1.get(key) or d2.get(key) or {}).get("caught_by") or []
+        meta = "/verif/seeded/%s/meta.json" % key
+        if not prev and os.path.exists(meta):
+            prev = json.load(open(meta)).get("caught_by") or []
+        run = prev[:1] if prev else checks
+        diff = "/verif/seeded/%s/patch_rebased.diff" % key
+        if not os.path.exists(diff):
+            diff = "/verif/seeded/%s/patch.diff" % key
+        rc, o = sh("git -C /repo apply %s" % diff)
+        if rc != 0:
+            res[key] = {"error": "patch does not apply"}; print(key, res[key], flush=True); json.dump(res, open(path, "w"), indent=1); continue
+        try:
+            verdicts = {}
+            for c in run:
+                rc, o = sh("cd /verif && ./check %s" % c, timeout=3000)
+                verdicts[c] = rc
+                if rc == 1:
+                    break
+            res[key] = {"checks": verdicts, "caught": any(v == 1 for v in verdicts.values()), "previously_caught_by": prev}
+            print(key, res[key], flush=True)
+        finally:
+            sh("git -C /repo checkout -- .")
+        json.dump(res, open(path, "w"), indent=1)
+
 if __name__ == "__main__":
     mode = sys.argv[1]
     only = set(sys.argv[2:])
-    {"confirm": confirm, "detect": detect, "confirm2": confirm2, "detect2": detect2}[mode](only)
+    {"confirm": confirm, "detect": detect, "confirm2": confirm2, "detect2": detect2, "redetect": redetect}[mode](only)
